@@ -11,6 +11,7 @@ import Sparrow.Model.Directivity
 import Sparrow.Model.PointPatch
 import Sparrow.Model.Stokes
 import Sparrow.Model.Visibility
+import Sparrow.Model.Nusselt
 import Sparrow.Generated.CheckParse
 open Sparrow Driver
 
@@ -513,6 +514,42 @@ def cmdRotMat : P String := do
   let m := rotationToZ (vec3At nv 0)
   return "ok " ++ fmtFloats #[m.r0.x, m.r0.y, m.r0.z, m.r1.x, m.r1.y, m.r1.z, m.r2.x, m.r2.y, m.r2.z]
 
+/-- `polyinfo n pts[3n]` → `ok area | center[3]` -/
+def cmdPolyInfo : P String := do
+  let n ← nat
+  let ps ← flts (3 * n)
+  let pts := fun i => vec3At ps i
+  let c := polygonCenter pts n
+  return "ok " ++ hexOfFloat (polygonArea pts n) ++ " | " ++ fmtFloats #[c.x, c.y, c.z]
+
+/-- `universal ni nj area nrmI[3] nrmJ[3] pi[3ni] pj[3nj]` → `ok value | integrator` -/
+def cmdUniversal : P String := do
+  let ni ← nat; let nj ← nat; let area ← flt
+  let a ← flts 3; let b ← flts 3
+  let pa ← flts (3 * ni); let pb ← flts (3 * nj)
+  let pi := fun i => vec3At pa i
+  let pj := fun j => vec3At pb j
+  let v := universalFF pi ni (vec3At a 0) area pj nj (vec3At b 0)
+  let integ := if chooseIntegrator (1e-6 : Float) pi pj ni nj == Integrator.nusselt then 0 else 1
+  return "ok " ++ hexOfFloat v ++ s!" | {integ}"
+
+/-- `nanalog n origin[3] sn[3] pn[3] pts[3n]` → `ok value` -/
+def cmdNAnalog : P String := do
+  let n ← nat
+  let o ← flts 3; let sn ← flts 3; let pn ← flts 3
+  let ps ← flts (3 * n)
+  return "ok " ++ hexOfFloat (nusseltAnalog (vec3At o 0) (vec3At sn 0) (fun i => vec3At ps i) n (vec3At pn 0))
+
+/-- `surfsamples nv npoints el[3nv]` → `ok count | pts[3*count]` -/
+def cmdSurfSamples : P String := do
+  let nv ← nat; let np ← nat
+  let ps ← flts (3 * nv)
+  let l := surfSamples (fun i => vec3At ps i) nv np
+  let mut out := Array.mkEmpty (3 * l.length)
+  for p in l do
+    out := out.push p.x |>.push p.y |>.push p.z
+  return s!"ok {l.length} | " ++ fmtFloats out
+
 def dispatch (cmd : String) : P String :=
   match cmd with
   | "exchange" => cmdExchange
@@ -530,7 +567,11 @@ def dispatch (cmd : String) : P String :=
   | "kangff" => cmdKangFF
   | "metrics" => cmdMetrics
   | "ptsol" => cmdPtSol
+  | "polyinfo" => cmdPolyInfo
   | "stokes" => cmdStokes
+  | "universal" => cmdUniversal
+  | "nanalog" => cmdNAnalog
+  | "surfsamples" => cmdSurfSamples
   | "basicvis" => cmdBasicVis
   | "visscan" => cmdVisScan
   | "rotmat" => cmdRotMat
